@@ -164,7 +164,7 @@ func TestC15(t *testing.T) {
 			var err error
 			var pan interface{}
 			func() {
-				defer func() { pan = recover() }()
+				defer func() { pan = notRapid(recover()) }()
 				resp, err = k.VerifySignature(sdk.WrapSDKContext(v.Ctx), &sigtypes.QueryVerifySignatureRequest{TargetAccAddress: addr, ReferenceId: ref})
 			}()
 			return resp, err, pan
